@@ -116,10 +116,143 @@ def translate_unite_rets(tree):
     return ("Definition gen_unite_rets (anys uanys unions : list rtype) (clean : option rtype) : result :=\n  " + term + ".\n")
 
 
+# ---------------------------------------------------------------------------
+# the overload loop of OverloadedSignature.check_call
+
+
+def _lfail(node, why):
+    raise TranslateError(f"{REL}:{getattr(node, 'lineno', '?')}: check_call loop: {why}: {ast.dump(node)[:160]}")
+
+
+def ret_cond(e):
+    """conditions on the CallReturn `ret` of one overload"""
+    if isinstance(e, ast.UnaryOp) and isinstance(e.op, ast.Not):
+        return f"(negb {ret_cond(e.operand)})"
+    if isinstance(e, ast.BoolOp):
+        return "(" + (" && " if isinstance(e.op, ast.And) else " || ").join(ret_cond(v) for v in e.values) + ")"
+    if isinstance(e, ast.Attribute) and isinstance(e.value, ast.Name) and e.value.id == "ret":
+        if e.attr == "is_error":
+            return "(cr_error ret)"
+        if e.attr == "used_any_for_match":
+            return "(cr_any ret)"
+    if (isinstance(e, ast.Compare) and len(e.ops) == 1 and isinstance(e.left, ast.Attribute) and isinstance(e.left.value, ast.Name)
+            and e.left.value.id == "ret" and e.left.attr == "remaining_arguments"
+            and isinstance(e.comparators[0], ast.Constant) and e.comparators[0].value is None):
+        if isinstance(e.ops[0], ast.IsNot):
+            return "(negb (is_nil (opt_list (cr_remaining ret))))"
+        if isinstance(e.ops[0], ast.Is):
+            return "(is_nil (opt_list (cr_remaining ret)))"
+    _lfail(e, "unsupported condition on ret")
+
+
+STATE = ["actual_args", "any_rets", "union_and_any_rets", "union_rets"]
+
+
+def loop_actions(stmts):
+    """a branch of the if-chain: a sequence of appends / actual_args assignment / continue, or a return"""
+    upd = {}
+    for st in stmts:
+        if isinstance(st, ast.Continue):
+            continue
+        if (isinstance(st, ast.Expr) and isinstance(st.value, ast.Call) and isinstance(st.value.func, ast.Attribute)
+                and st.value.func.attr == "append" and isinstance(st.value.func.value, ast.Name) and st.value.func.value.id in LISTS
+                and len(st.value.args) == 1 and isinstance(st.value.args[0], ast.Name) and st.value.args[0].id == "ret"):
+            name = st.value.func.value.id
+            if name in upd:
+                _lfail(st, "two updates of the same list")
+            upd[name] = f"({LISTS[name]} ++ [cr_ret ret])"
+            continue
+        if (isinstance(st, ast.Assign) and len(st.targets) == 1 and isinstance(st.targets[0], ast.Name) and st.targets[0].id == "actual_args"
+                and isinstance(st.value, ast.Attribute) and st.value.attr == "remaining_arguments"
+                and isinstance(st.value.value, ast.Name) and st.value.value.id == "ret"):
+            upd["actual_args"] = "(match cr_remaining ret with Some a => a | None => args end)"
+            continue
+        if isinstance(st, ast.If):
+            if len(stmts) != 1 and stmts.index(st) != 0:
+                _lfail(st, "nested if must come first in its branch")
+            rest = stmts[stmts.index(st) + 1 :]
+            a = loop_actions(list(st.body) + rest)
+            b = loop_actions(list(st.orelse) + rest)
+            return f"(if {ret_cond(st.test)} then {a} else {b})"
+        if isinstance(st, ast.Return):
+            v = st.value
+            if (isinstance(v, ast.Call) and isinstance(v.func, ast.Attribute) and v.func.attr == "_unite_rets"
+                    and [getattr(a, "id", None) for a in v.args] == ["any_rets", "union_and_any_rets", "union_rets", "ret"]):
+                return "(LReturn (gen_unite_rets anys uanys unions (Some (cr_ret ret))))"
+            _lfail(st, "unsupported return")
+        _lfail(st, "unsupported statement")
+    args = upd.get("actual_args", "args")
+    return f"(LContinue {args} {upd.get('any_rets', 'anys')} {upd.get('union_and_any_rets', 'uanys')} {upd.get('union_rets', 'unions')})"
+
+
+def translate_loop(tree):
+    fn = find(tree, "OverloadedSignature.check_call", REL)
+    loop = one_statement(fn, lambda n: isinstance(n, ast.For) and "check_call_preprocessed" in ast.dump(n), "overload loop", REL)
+    # for i, sig in enumerate(sigs):
+    if not (isinstance(loop.target, ast.Tuple) and [getattr(e, "id", None) for e in loop.target.elts] == ["i", "sig"]
+            and isinstance(loop.iter, ast.Call) and getattr(loop.iter.func, "id", None) == "enumerate"
+            and getattr(loop.iter.args[0], "id", None) == "sigs"):
+        _lfail(loop, "expected `for i, sig in enumerate(sigs)`")
+    body = list(loop.body)
+    # with visitor.catch_errors() as caught_errors: ret = sig.check_call_preprocessed(actual_args, ctx, is_overload=<expr>)
+    w = body[0]
+    call = None
+    if isinstance(w, ast.With) and len(w.body) == 1 and isinstance(w.body[0], ast.Assign) and getattr(w.body[0].targets[0], "id", None) == "ret":
+        call = w.body[0].value
+    if not (isinstance(call, ast.Call) and isinstance(call.func, ast.Attribute) and call.func.attr == "check_call_preprocessed"
+            and getattr(call.func.value, "id", None) == "sig" and [getattr(a, "id", None) for a in call.args] == ["actual_args", "ctx"]
+            and [k.arg for k in call.keywords] == ["is_overload"]):
+        _lfail(w, "expected ret = sig.check_call_preprocessed(actual_args, ctx, is_overload=...)")
+    isov = call.keywords[0].value
+
+    def ovexpr(e):
+        if isinstance(e, ast.BoolOp):
+            return "(" + (" && " if isinstance(e.op, ast.And) else " || ").join(ovexpr(v) for v in e.values) + ")"
+        if (isinstance(e, ast.Compare) and len(e.ops) == 1 and getattr(e.left, "id", None) == "i" and getattr(e.comparators[0], "id", None) == "last"):
+            if isinstance(e.ops[0], ast.NotEq):
+                return "(negb is_last)"
+            if isinstance(e.ops[0], ast.Eq):
+                return "is_last"
+        if isinstance(e, ast.Call) and getattr(e.func, "id", None) == "bool" and len(e.args) == 1 and getattr(e.args[0], "id", None) in LISTS:
+            return f"(negb (is_nil {LISTS[e.args[0].id]}))"
+        if isinstance(e, ast.Constant) and isinstance(e.value, bool):
+            return "true" if e.value else "false"
+        _lfail(e, "unsupported is_overload expression")
+
+    # errors_per_overload.append(caught_errors) is bookkeeping for the message only
+    rest = body[1:]
+    if rest and isinstance(rest[0], ast.Expr) and "errors_per_overload" in ast.dump(rest[0]):
+        rest = rest[1:]
+    if len(rest) != 1 or not isinstance(rest[0], ast.If):
+        _lfail(loop, "expected one if-chain on ret after the call")
+    step = loop_actions(rest)
+    # last = len(sigs) - 1
+    last = one_statement(fn, lambda n: isinstance(n, ast.Assign) and getattr(n.targets[0], "id", None) == "last", "last = len(sigs) - 1", REL)
+    if ast.dump(last.value) != ast.dump(ast.parse("len(sigs) - 1").body[0].value):
+        _lfail(last, "expected last = len(sigs) - 1")
+    # after the loop: if any_rets: return self._unite_rets(any_rets, union_and_any_rets, union_rets, ...)
+    stmts = list(fn.body)
+    after = stmts[stmts.index(loop) + 1 :] if loop in stmts else None
+    if not after or not (isinstance(after[0], ast.If) and getattr(after[0].test, "id", None) == "any_rets" and not after[0].orelse
+                         and len(after[0].body) == 1 and isinstance(after[0].body[0], ast.Return)
+                         and isinstance(after[0].body[0].value, ast.Call) and getattr(after[0].body[0].value.func, "attr", None) == "_unite_rets"
+                         and [getattr(a, "id", None) for a in after[0].body[0].value.args] == ["any_rets", "union_and_any_rets", "union_rets"]):
+        _lfail(loop, "expected `if any_rets: return self._unite_rets(any_rets, union_and_any_rets, union_rets, ...)` after the loop")
+    tail = after[1:]
+    if not (tail and isinstance(tail[-1], ast.Return) and "AnyValue" in ast.dump(tail[-1]) and "error" in ast.dump(tail[-1])
+            and any("show_error" in ast.dump(t) for t in tail)):
+        _lfail(loop, "expected the error report and `return AnyValue(AnySource.error)` at the end")
+    return (
+        "Definition gen_is_overload (is_last : bool) (anys : list rtype) : bool :=\n  " + ovexpr(isov) + ".\n\n"
+        "Definition gen_step (args : list arg) (anys uanys unions : list rtype) (ret : callret) : lstep :=\n  " + step + ".\n\n"
+        "Definition gen_after_loop (anys uanys unions : list rtype) : result :=\n"
+        "  if negb (is_nil anys) then gen_unite_rets anys uanys unions None else RErr.\n"
+    )
+
+
 def pins(tree):
     out = {}
     for name, qual in [
-        ("pin_check_call", "OverloadedSignature.check_call"),
         ("pin_check_param_type_compatibility", "Signature._check_param_type_compatibility"),
         ("pin_decompose_union", "decompose_union"),
         ("pin_check_call_preprocessed", "Signature.check_call_preprocessed"),
@@ -140,7 +273,7 @@ def translate(repo):
         "(* GENERATED by harness/translate/overload.py from pyanalyze/signature.py — do not edit. *)\n"
         "From Coq Require Import List Bool Arith.\nImport ListNotations.\nRequire Import PV.Overload.Resolve.\n\n"
         "(* OverloadedSignature._unite_rets, statement by statement *)\n"
-        + translate_unite_rets(tree) + "\n" + coq_pins(pins(tree))
+        + translate_unite_rets(tree) + "\n(* the overload loop of OverloadedSignature.check_call *)\n" + translate_loop(tree) + "\n" + coq_pins(pins(tree))
     )
 
 
